@@ -61,16 +61,25 @@ CHAINS = ["backward-delete-char+put(b)", "clear-query+put(ab)", "put(a)+put(b)",
           "unix-line-discard+yank", "toggle-sort+toggle-sort", "change-query(b)+toggle-sort"]
 
 
-def make_steps(rng, n, slow):
+def make_steps(rng, n, slow, reloads=0, excludes=False):
+    """reloads: number of reload commands available (placeholders RELOAD<k> / RELOADSYNC<k> are substituted by run_session)."""
     steps = []
+    used = 0
     for _ in range(n):
         r = rng.random()
-        act = rng.choice(CHAINS) if r < 0.3 else rng.choice(EDITS)
+        if excludes and r < 0.12:
+            act = rng.choice(["exclude", "exclude", "down+exclude", "up+up+exclude", "exclude+put(a)", "toggle+down+toggle+exclude-multi"])
+        elif used < reloads and r < 0.2:
+            act = rng.choice(["RELOAD%d", "RELOADSYNC%d", "RELOAD%d+put(a)", "change-query(b)+RELOAD%d"]) % used
+            used += 1
+        else:
+            act = rng.choice(CHAINS) if r < 0.45 else rng.choice(EDITS)
         steps.append({"sleep": rng.choice([0, 0, 0, 0.001, 0.003, 0.01, 0.03, 0.08]) * slow, "post": act})
     return steps
 
 
-def run_session(ctx, fzf, sid, lines, sched, steps, extra_args=(), width=70, height=16, race_log=False):
+def run_session(ctx, fzf, sid, lines, sched, steps, extra_args=(), width=70, height=16, race_log=False, reload_scheds=()):
+    """reload_scheds: schedules for the reload commands RELOAD<k>; returns (trace, GET state, {command: k})."""
     sdir = os.path.join(ctx.work, "pl-%d-%d" % (os.getpid(), sid))
     os.makedirs(sdir, exist_ok=True)
     with open(os.path.join(sdir, "sched.json"), "w") as fh:
@@ -78,6 +87,11 @@ def run_session(ctx, fzf, sid, lines, sched, steps, extra_args=(), width=70, hei
     with open(os.path.join(sdir, "producer.py"), "w") as fh:
         fh.write(PRODUCER)
     input_cmd = "python3 %s %s" % (shlex.quote(os.path.join(sdir, "producer.py")), shlex.quote(os.path.join(sdir, "sched.json")))
+    cmds = {}
+    for k, rs in enumerate(reload_scheds):
+        with open(os.path.join(sdir, "resched%d.json" % k), "w") as fh:
+            json.dump(rs, fh)
+        cmds[k] = "python3 %s %s" % (os.path.join(sdir, "producer.py"), os.path.join(sdir, "resched%d.json" % k))
     env = {"GORACE": "log_path=%s halt_on_error=0" % os.path.join(sdir, "race")} if race_log else None
     s = tmuxdrv.Session(ctx, fzf, ["--no-color", "--no-unicode"] + list(extra_args), input_cmd=input_cmd, width=width, height=height, env=env)
     try:
@@ -85,9 +99,12 @@ def run_session(ctx, fzf, sid, lines, sched, steps, extra_args=(), width=70, hei
         for st in steps:
             if st["sleep"] > 0:
                 time.sleep(st["sleep"])
-            code, _ = s.post(st["post"])
+            body = st["post"]
+            for k, c in cmds.items():
+                body = body.replace("RELOADSYNC%d" % k, "reload-sync(%s)" % c).replace("RELOAD%d" % k, "reload(%s)" % c)
+            code, _ = s.post(body)
             if code != 200:
-                raise Infra("POST %r -> %d" % (st["post"], code))
+                raise Infra("POST %r -> %d" % (body, code))
         # quiescence: reader finished, every request served, the last result displayed, nothing moves any more
         def quiet(tr):
             if not any(e["ev"] == "coord.read" and e.get("fin") for e in tr):
@@ -96,23 +113,42 @@ def run_session(ctx, fzf, sid, lines, sched, steps, extra_args=(), width=70, hei
                 return False
             return True
         s.wait_for(quiet, timeout=120, what="input end + all actions processed")
-        s.wait_trace_quiet(quiet=0.4, timeout=120)
-        st = s.get()
-        if st is None:
-            raise Infra("GET / failed at quiescence")
-        s.wait_trace_quiet(quiet=0.1, timeout=60)
+        t0 = time.time()
+        while True:
+            s.wait_trace_quiet(quiet=0.4, timeout=120)
+            st = s.get()
+            if st is None:
+                raise Infra("GET / failed at quiescence")
+            n1 = len(s.trace())
+            s.wait_trace_quiet(quiet=0.1, timeout=60)
+            if not st["reading"] and len(s.trace()) == n1:
+                break           # the (re)loader is done and nothing moved since the state was read
+            if time.time() - t0 > 120:
+                raise Infra("session never became quiescent (reading=%s)" % st["reading"])
         tr = list(s.trace())
         s.post("abort", final=True)
         s.wait_exit()
-        return tr, st
+        return tr, st, {c: k for k, c in cmds.items()}
     finally:
         s.close()
 
 
-def project(trace, get, sid):
-    """Hook trace -> Trace_Pipeline events; returns (events, oracle_keys)."""
+def project(trace, get, sid, cmdmap=None):
+    """Hook trace -> Trace_Pipeline events; returns (events, oracle_keys, info) where info maps a revision "M.m" to
+    (input number, excluded item indices): input number -1 = the initial input, k = reload command k."""
     evs = [{"ev": "start", "sid": sid}]
     keys = set()
+    cmdmap = cmdmap or {}
+    major_input = {0: -1}
+    deny_events = {0: []}   # per major revision: the id lists of the exclusions, in order (each bumps the minor revision)
+    cur_major = 0
+
+    def info_of(rev):
+        ids = []
+        for lst in deny_events.get(rev[0], [])[:rev[1]]:
+            ids += [i for i in lst if i not in ids]
+        return (major_input.get(rev[0], -1), ids)
+    info = {}
 
     def req(e):
         return {"q": e["q"], "count": e["count"], "final": e["final"], "sort": e["sort"], "rev": e["rev"]}
@@ -124,26 +160,43 @@ def project(trace, get, sid):
         elif k == "match.pick":
             evs.append(dict(req(e), ev="pick", saw=saw, seq=e["seq"]))
             saw = []
+        elif k == "coord.restart":
+            cur_major = e["rev"][0]
+            if e["command"] not in cmdmap:
+                raise Infra("restart with an unknown command %r" % e["command"])
+            major_input[cur_major] = cmdmap[e["command"]]
+            deny_events[cur_major] = []
+        elif k == "coord.deny":
+            if e.get("compatible", True):
+                deny_events.setdefault(cur_major, []).append(list(e["ids"]))
         elif k == "match.reset":
             evs.append(dict(req(e), ev="reset", cancel=e["cancel"], seq=e["seq"]))
         elif k in ("match.cachehit", "match.cancelled"):
             evs.append(dict(req(e), ev=k.split(".")[1], seq=e["seq"]))
         elif k == "match.publish":
             evs.append(dict(req(e), ev="publish", res=ev_res(e), seq=e["seq"]))
-            keys.add((e["q"], e["count"], e["sort"]))
+            keys.add((e["q"], e["count"], e["sort"], "%d.%d" % tuple(e["rev"])))
+            info["%d.%d" % tuple(e["rev"])] = info_of(e["rev"])
+            if e["rev"][1] > 0:     # for the named deviation StaleChunkCache: the result of the previous exclusion generation
+                prev = [e["rev"][0], e["rev"][1] - 1]
+                keys.add((e["q"], e["count"], e["sort"], "%d.%d" % tuple(prev)))
+                info["%d.%d" % tuple(prev)] = info_of(prev)
         elif k == "term.list":
             evs.append({"ev": "list", "res": ev_res(e), "n": e["n"], "seq": e["seq"]})
         elif k == "term.loop":
             evs.append({"ev": "query", "q": e["input"], "seq": e["seq"]})
     ids = [m["index"] for m in get["matches"]]
+    resets = [e for e in evs if e["ev"] == "reset"]
+    last_rev = "%d.%d" % tuple(resets[-1]["rev"]) if resets else "0.0"
     evs.append({"ev": "end", "q": get["query"], "total": get["totalCount"], "sort": get["sort"], "getres": fnv_res(ids),
                 "matchCount": get["matchCount"]})
-    keys.add((get["query"], get["totalCount"], get["sort"]))
-    return evs, keys
+    keys.add((get["query"], get["totalCount"], get["sort"], last_rev))
+    info[last_rev] = info_of([int(x) for x in last_rev.split(".")])
+    return evs, keys, info
 
 
-def oracle(fzf, lines, q, n, sort, extra_args=()):
-    """What a fresh `fzf --filter q` prints for the first n input lines, as item indices."""
+def oracle(fzf, lines, q, n, sort, extra_args=(), excluded=()):
+    """What a fresh `fzf --filter q` prints for the first n input lines, as item indices (minus excluded items)."""
     args = [fzf, "--filter", q] + list(extra_args)
     if not sort:
         args.append("+s")
@@ -151,8 +204,11 @@ def oracle(fzf, lines, q, n, sort, extra_args=()):
     if r.returncode not in (0, 1):
         raise Infra("oracle fzf --filter %r exited %d: %s" % (q, r.returncode, r.stderr[:200]))
     ids = [int(l.split(b" ", 1)[0]) for l in r.stdout.split(b"\n") if l]
+    if excluded:
+        ex = set(excluded)
+        ids = [i for i in ids if i not in ex]
     return fnv_res(ids)
 
 
-def okey(sid, q, n, sort):
-    return "%d|%s|%d|%s" % (sid, q, n, "s" if sort else "u")
+def okey(sid, q, n, sort, rev="0.0"):
+    return "%d|%s|%d|%s|%s" % (sid, q, n, "s" if sort else "u", rev)
